@@ -36,7 +36,7 @@ type ChallengeSpec struct {
 
 func (c ChallengeSpec) hasBearer() bool {
 	switch c.Kind {
-	case "bearer", "basic+bearer", "bearer+basic-2h", "unsupported+bearer":
+	case "bearer", "basic+bearer", "bearer+basic-2h", "unsupported+bearer", "bearer+bearer":
 		return true
 	}
 	return false
@@ -52,14 +52,16 @@ func (c ChallengeSpec) hasBasic() bool {
 
 // AuthSpec is the standing authentication requirement of a host.
 type AuthSpec struct {
-	Ch         ChallengeSpec `json:"ch"`                    // Kind none = open
-	Post       bool          `json:"post,omitempty"`        // token endpoint implements the OAuth2 POST flow
-	Refresh    bool          `json:"refresh,omitempty"`     // token responses carry a refresh_token
-	Anon       bool          `json:"anon,omitempty"`        // anonymous pull tokens are issued
-	ScopeCheck bool          `json:"scope_check,omitempty"` // a token must cover the repository and action
-	TokenField int           `json:"token_field,omitempty"` // 0 token, 1 access_token, 2 both
-	IssuedAt   int           `json:"issued_at,omitempty"`   // 0 omitted, 1 fixed past date
-	ChangeAt   int           `json:"change_at"`             // host ordinal from which Alt replaces Ch (-1 never)
+	Ch         ChallengeSpec `json:"ch"`                     // Kind none = open
+	Post       bool          `json:"post,omitempty"`         // token endpoint implements the OAuth2 POST flow
+	Refresh    bool          `json:"refresh,omitempty"`      // token responses carry a refresh_token
+	Anon       bool          `json:"anon,omitempty"`         // anonymous pull tokens are issued
+	ScopeCheck bool          `json:"scope_check,omitempty"`  // a token must cover the repository and action
+	TokenField int           `json:"token_field,omitempty"`  // 0 token, 1 access_token, 2 both
+	IssuedAt   int           `json:"issued_at,omitempty"`    // 0 omitted, 1 fixed past date
+	TokRedir   int           `json:"tok_redir,omitempty"`    // 1-based host index the token endpoint redirects to (0 = it answers itself)
+	TokRedirSt int           `json:"tok_redir_st,omitempty"` // 307 308 302 301 303
+	ChangeAt   int           `json:"change_at"`              // host ordinal from which Alt replaces Ch (-1 never)
 	Alt        ChallengeSpec `json:"alt"`
 }
 
@@ -77,7 +79,7 @@ type HostSpec struct {
 	Scheme string `json:"scheme,omitempty"` // unconfigured hosts: scheme other hosts use in URLs that point here ("" = https)
 
 	// client configuration
-	Cfg        string `json:"cfg,omitempty"`         // "" not configured | host (config.Host) | docker (docker config file)
+	Cfg        string `json:"cfg,omitempty"`         // "" not configured | host (config.Host) | docker (docker config file) | helper (config.Host with a credential helper program)
 	CfgName    string `json:"cfg_name,omitempty"`    // registry name used by the client when it differs from Name (Hostname = Name)
 	Key        string `json:"key,omitempty"`         // docker key spelling: bare | https | http | slash | https-slash | http-slash | hub-legacy | hub-name | hub-dns
 	DockerForm string `json:"docker_form,omitempty"` // auth | userpass | idtoken | idtoken+auth
@@ -86,7 +88,12 @@ type HostSpec struct {
 	RepoAuth   bool   `json:"repo_auth,omitempty"`
 	Mirrors    []int  `json:"mirrors,omitempty"`
 	Priority   int    `json:"priority,omitempty"`
-	Unused     bool   `json:"unused,omitempty"` // configured, never addressed by an operation
+	Unused     bool   `json:"unused,omitempty"`      // configured, never addressed by an operation
+	AlsoDocker bool   `json:"also_docker,omitempty"` // Cfg host: the same credentials are ALSO in the docker config file (https:// key, loaded later: TLS becomes enabled)
+	DupKey     bool   `json:"dup_key,omitempty"`     // Cfg docker: a second accepted spelling of the same host with the same credentials
+	DupMirror  bool   `json:"dup_mirror,omitempty"`  // every mirror is listed twice
+	PathPrefix string `json:"path_prefix,omitempty"` // config pathPrefix (mirror inside a repository namespace)
+	NoHead     bool   `json:"no_head,omitempty"`     // apiOpts disableHead=true
 
 	// server behaviour
 	Auth  AuthSpec   `json:"auth"`
@@ -105,8 +112,10 @@ type HostSpec struct {
 	Referrers      bool   `json:"referrers,omitempty"`       // referrers API
 	TagPage        int    `json:"tag_page,omitempty"`
 	RefPage        int    `json:"ref_page,omitempty"`
-	MirrorOf       int    `json:"mirror_of"`            // -1 or index of the upstream
-	MirrorHas      bool   `json:"mirror_has,omitempty"` // a mirror that holds the upstream's content
+	MirrorOf       int    `json:"mirror_of"`                // -1 or index of the upstream
+	MirrorHas      bool   `json:"mirror_has,omitempty"`     // a mirror that holds the upstream's content
+	HeadNoDigest   bool   `json:"head_no_digest,omitempty"` // manifest HEAD without Docker-Content-Digest
+	NoTagDelete    bool   `json:"no_tag_delete,omitempty"`  // DELETE of a tag answers 405 (client falls back to the dummy manifest procedure)
 }
 
 // Decoy is a docker config entry whose key regclient must reject (it names a repository / path).
@@ -118,7 +127,7 @@ type Decoy struct {
 
 // Op is one client operation.
 type Op struct {
-	Kind    string `json:"kind"` // ping mget mhead mput mdel bget bhead bput bmount bdel tags referrers copy catalog
+	Kind    string `json:"kind"` // ping mget mhead mput mdel bget bhead bput bmount bdel tags referrers copy catalog tagdel bcopy imgconfig export refsrc mputsub
 	Reg     int    `json:"reg"`
 	Repo    int    `json:"repo"`
 	Tag     string `json:"tag,omitempty"` // v1 | ext
@@ -127,7 +136,9 @@ type Op struct {
 	Tgt     int    `json:"tgt,omitempty"`
 	TgtRepo int    `json:"tgt_repo,omitempty"`
 	N       int    `json:"n,omitempty"`
-	Flags   int    `json:"flags,omitempty"` // copy: 1 include-external, 2 referrers, 4 digest-tags
+	Flags   int    `json:"flags,omitempty"`  // copy: 1 include-external, 2 referrers, 4 digest-tags, 8 fast-check, 16 force-recursive, 32 target is an OCI layout; bput: 1 unknown descriptor, 2 sha512; mget: 1 platform; mhead: 1 require digest; mdel: 1 check referrers; catalog/tags: 1 limit
+	Form    int    `json:"form,omitempty"`   // reference form of the manifest reference: 0 tag or digest (Digest), 1 tag@digest, 2 no tag (default tag)
+	Cancel  int    `json:"cancel,omitempty"` // context: 0 live, -1 cancelled before the call, k>0 cancelled when the k-th request of the operation arrives
 }
 
 // FaultSpec is one transient (or final) failure injected at a host request ordinal, before the
@@ -143,14 +154,22 @@ type FaultSpec struct {
 
 // Case is the generated unit.
 type Case struct {
-	Salt    int         `json:"salt"`
-	Hosts   []HostSpec  `json:"hosts"`
-	Decoys  []Decoy     `json:"decoys,omitempty"`
-	Ops     []Op        `json:"ops"`
-	Faults  []FaultSpec `json:"faults,omitempty"`
-	Chunked bool        `json:"chunked,omitempty"` // small chunk / max-put sizes so that uploads are chunked
-	Special bool        `json:"special,omitempty"` // passwords contain characters that differ under URL / form encoding
-	LogVia  string      `json:"log_via,omitempty"` // "" slog text handler | json slog JSON handler | logrus | logrus-json (the logrus bridge)
+	Salt        int         `json:"salt"`
+	Hosts       []HostSpec  `json:"hosts"`
+	Decoys      []Decoy     `json:"decoys,omitempty"`
+	Ops         []Op        `json:"ops"`
+	Faults      []FaultSpec `json:"faults,omitempty"`
+	Chunked     bool        `json:"chunked,omitempty"`       // small chunk / max-put sizes so that uploads are chunked
+	Special     bool        `json:"special,omitempty"`       // passwords contain characters that differ under URL / form encoding
+	LogVia      string      `json:"log_via,omitempty"`       // "" slog text handler | json slog JSON handler | logrus | logrus-json (the logrus bridge)
+	DefTLS      string      `json:"def_tls,omitempty"`       // WithConfigHostDefault: TLS of hosts that do not say ("" = no default host given)
+	DefRepoAuth bool        `json:"def_repo_auth,omitempty"` // WithConfigHostDefault: repoAuth
+	DefHelper   bool        `json:"def_helper,omitempty"`    // WithConfigHostDefault: credHelper (regctl --default-cred-helper): the helper is asked for every host
+	DockerEnv   bool        `json:"docker_env,omitempty"`    // docker config found through $DOCKER_CONFIG (WithDockerCreds) instead of WithDockerCredsFile
+	ExtBadFirst bool        `json:"ext_bad_first,omitempty"` // the foreign layer lists an unavailable URL before the working one(s)
+	ExtOnReg    int         `json:"ext_on_reg,omitempty"`    // 1-based index of a registry that serves a foreign layer URL (0 = none)
+	Cache       bool        `json:"cache,omitempty"`         // reg.WithCache
+	Parallel    bool        `json:"parallel,omitempty"`      // the operations run concurrently on the one client
 }
 
 var repoNames = []string{"proj/app", "lib/base"}
@@ -165,7 +184,7 @@ func (c *Case) refName(i int) string {
 	if h.Name == hubDNS {
 		return "docker.io"
 	}
-	if h.Cfg == "host" && h.CfgName != "" {
+	if (h.Cfg == "host" || h.Cfg == "helper") && h.CfgName != "" {
 		return h.CfgName
 	}
 	return h.Name
@@ -174,12 +193,23 @@ func (c *Case) refName(i int) string {
 // effTLS is the TLS setting the client ends up with for host i ("" for an unconfigured host).
 func (c *Case) effTLS(i int) string {
 	h := &c.Hosts[i]
+	def := "enabled"
+	if c.DefTLS != "" {
+		def = c.DefTLS
+	}
 	switch h.Cfg {
-	case "host":
+	case "host", "helper":
+		if h.Cfg == "host" && h.AlsoDocker && h.CfgName == "" && h.CredKind != "none" && h.CredKind != "useronly" {
+			return "enabled" // the docker entry is merged later and always carries a TLS value
+		}
 		if h.TLS == "" {
-			return "enabled"
+			return def
 		}
 		return h.TLS
+	case "":
+		if h.Kind == "registry" {
+			return def // a registry the client only knows by name
+		}
 	case "docker":
 		// a docker config entry always carries a TLS value: disabled for an http:// key, else enabled
 		if !c.isHub(i) && (h.Key == "http" || h.Key == "http-slash") {
@@ -212,7 +242,7 @@ func (c *Case) naturalScheme(i int) string {
 
 func (c *Case) hasCreds(i int) bool {
 	h := &c.Hosts[i]
-	return h.Cfg != "" && h.CredKind != "none" && h.CredKind != ""
+	return h.Cfg != "" && h.CredKind != "none" && h.CredKind != "" && h.CredKind != "useronly"
 }
 
 // secretVal derives a unique, long, random looking secret from the salt.
